@@ -12,7 +12,9 @@ Engine E1 (lattice over the device database), three pool phases:
 * k = 1 on one representative per class: every register and every bit-field of the template set through the
   configuration to {0, 1, max, max-1, 0x55.., 0xAA.., each enum name}, the whole-register form (plus one value whose
   bytes come from VERIF_SEED), computed fields given explicitly / calculated fields left out; thorough adds k = 2:
-  pairs of neighbouring bit-fields of one register, and runs every round trip for every value.
+  pairs of neighbouring bit-fields of one register, and runs every round trip for every value.  The quick tier is a
+  thinned k = 1 (see the assumptions written into the evidence): {0, 1, max, 0x55..}, at most four enum names per
+  field, first and last register of every structure, round trips on one value per field.
 * the CLIs the property names (pfr, ifr, nxpimage bca|fcf|tz, nxpimage bootable-image fcb|xmcd, nxpfuses, nxpmemcfg):
   get-template -> export -> parse at base on the representative of every class, compared with the API results;
   pfr generate-binary --add-seal / --secret-file.
@@ -334,7 +336,7 @@ def base_state(inst: dict, out: Optional[Out] = None, log: Optional[list] = None
         o.v("template", f"{kind}:revision-missing", f"{iid}: template of revision {inst['rev']} carries revision={cfg.get('revision')}")
         cfg["revision"] = inst["rev"]
     # 3. schema (out given = base case only)
-    if out is not None:
+    if out is not None and kind != "xmcd":  # XMCD.load_from_config runs the same two check_config calls itself (0.3 s each)
         try:
             area.validate(inst, copy.deepcopy(cfg))
         except SPSDKError as e:
@@ -347,7 +349,10 @@ def base_state(inst: dict, out: Optional[Out] = None, log: Optional[list] = None
         if kind == "tz":
             obj._c12_rev = inst["rev"]
     except Exception as e:  # noqa
-        o.v("template-loads", f"{kind}:{_exc_kind(e)}", f"{iid}: loading the template raised {type(e).__name__}: {str(e)[:500]}")
+        if kind == "xmcd" and "validation failed" in str(e):
+            o.v("template-schema", f"{kind}", f"{iid}: the template does not pass the area's schema: {str(e)[:500]}")
+        else:
+            o.v("template-loads", f"{kind}:{_exc_kind(e)}", f"{iid}: loading the template raised {type(e).__name__}: {str(e)[:500]}")
         return st
     st["obj"] = obj
     try:
@@ -490,7 +495,9 @@ def round_trips(st: dict, o: Out, obj: Any, img: bytes, tag: str, disc_extra: st
         sources = [("parsed", parsed)]  # rendering + reloading a 200-register block twice costs seconds
     for label, src in sources:
         try:
-            cfg2 = fast_config(area, kind, src) if fast else area.config(src)
+            # FCB / XMCD have only the rendered (commented YAML) form, 0.5-0.8 s per call: every instance takes the
+            # dictionary that create_config() renders; the rendering itself is round-tripped once per class (cli_case)
+            cfg2 = fast_config(area, kind, src) if (fast or (kind in ("fcb", "xmcd") and tag == "base")) else area.config(src)
         except Exception as e:  # noqa
             o.v("config-roundtrip", f"{kind}{disc_extra}:get-config-raises:{_exc_kind(e)}", f"{iid} {what}: configuration of the {label} object raised {type(e).__name__}: {str(e)[:300]}")
             continue
@@ -772,6 +779,10 @@ def base_clauses(st: dict, o: Out) -> None:
     if model is not None and kind != "fuses":
         for n in AR.other_calculated(model.regs):
             o.c("calculated_markers_without_rule")
+        for r in model.regs:
+            nm = [f.name for f in r.fields if f.name]
+            if len(nm) != len(set(nm)):
+                o.c("registers_with_duplicate_bitfield_names")
 
     # -- round trips ------------------------------------------------------------------------------------------------
     round_trips(st, o, obj, img, "base", "", fast=False, what="base")
@@ -899,8 +910,12 @@ def targets_of(st: dict, regname: str, tier: str, seed: int = 0) -> list[dict]:
     tv = settings[regname]
     mdl = st["mdl"]
     out: list[dict] = []
+    thin = tier == "quick"  # quick: {0, 1, max, 0x55..}; of more than four enum names the first two and the last two
+    # quick, areas whose load re-validates / deep-copies everything (fuses 20 ms, XMCD 0.3-1.5 s per evaluation):
+    # bit-fields {1, max} and the first and last enum name; whole-register values as above
+    xthin = thin and kind in ("fuses", "xmcd")
     if kind == "tz":
-        for v in AR.alphabet(32) + [_seeded(seed, regname, 32)]:
+        for v in AR.alphabet(32, thin) + [_seeded(seed, regname, 32)]:
             out.append({"form": "reg", "value": _hexstr(v, 32, False), "raw": v, "width": 32})
         return out
     model: AR.AreaModel = mdl["model"]
@@ -909,9 +924,9 @@ def targets_of(st: dict, regname: str, tier: str, seed: int = 0) -> list[dict]:
         g = grp[regname]
         w = group_width(g, model)
         plain = bool(g.get("config_as_hexstring"))
-        vals = AR.alphabet(w)
+        vals = AR.alphabet(w, thin)
         for alt in g.get("alternative_widths") or []:
-            vals += [v for v in AR.alphabet(AR.num(alt)) if v not in vals]
+            vals += [v for v in AR.alphabet(AR.num(alt), thin) if v not in vals]
         vals.append(_seeded(seed, regname, w))
         for v in vals:
             out.append({"form": "group", "value": _hexstr(v, w, plain), "raw": v, "width": w})
@@ -924,9 +939,18 @@ def targets_of(st: dict, regname: str, tier: str, seed: int = 0) -> list[dict]:
             f = r.field(fname)
             if f is None:
                 continue
-            for v in AR.alphabet(f.width):
+            for v in AR.alphabet(f.width, thin):
+                if xthin and v not in (1, (1 << f.width) - 1):
+                    continue
                 out.append({"form": "field", "field": fname, "value": v << f.shift, "raw": v})
+            enames = [en for en in f.enums if en not in f.dup_enum_names]
+            if xthin and len(enames) > 2:
+                enames = enames[:1] + enames[-1:]
+            elif thin and len(enames) > 4:
+                enames = enames[:2] + enames[-2:]
             for en, ev in f.enums.items():
+                if en not in enames:
+                    continue
                 if en in f.dup_enum_names:
                     continue  # the description file gives this name to several values
                 if 0 <= (ev >> f.shift) < (1 << f.width):
@@ -944,14 +968,18 @@ def targets_of(st: dict, regname: str, tier: str, seed: int = 0) -> list[dict]:
                         out.append({"form": "field", "field": src.name, "value": v << src.shift, "raw": v, "omit": f.name})
     # bits of a register with bit-fields that no bit-field entry (named or gap) declares cannot be written down in
     # the bit-field form get_config() produces: whole-register values stay inside the declared bits (as in C11)
+    # ... and outside bit-fields that share their name with another field of the register ("reserved", "Restricted"):
+    # a configuration cannot address those one by one
     covered = (1 << r.width) - 1
     if r.fields:
         covered = 0
+        names = [f.name for f in r.fields if f.name]
         for f in r.fields:
-            covered |= f.mask
+            if f.name is None or names.count(f.name) == 1:
+                covered |= f.mask
         covered &= (1 << r.width) - 1
     seen_v: set[int] = set()
-    for v in AR.alphabet(r.width) + [_seeded(seed, regname, r.width)]:
+    for v in AR.alphabet(r.width, thin) + [_seeded(seed, regname, r.width)]:
         v &= covered
         if v in seen_v:
             continue
@@ -984,15 +1012,33 @@ def pair_targets(st: dict, regname: str) -> list[dict]:
     return out
 
 
-def make_cfg(st: dict, regname: str, t: dict) -> dict:
+def _as_int(v: Any) -> Optional[int]:
+    if isinstance(v, bool):
+        return int(v)
+    if isinstance(v, int):
+        return v
+    try:
+        return AR.num(v)
+    except (ValueError, TypeError):
+        return None
+
+
+def make_cfg(st: dict, regname: str, t: dict, quick: bool = False) -> dict:
     kind = st["inst"]["kind"]
     area = A.AREAS[kind]
     base = st["cfg"]
     cfg = dict(base)
-    full = kind.startswith("pfr.") or kind.startswith("ifr.") or kind in ("xmcd", "memcfg", "tz", "bca", "fcf")
-    # PFR: the whole template with one entry changed (computed fields are then demanded for every register);
+    pfr = kind.startswith("pfr.") or kind.startswith("ifr.")
+    full = (pfr and not quick) or kind in ("xmcd", "memcfg", "tz", "bca", "fcf")
+    # PFR (thorough): the whole template with one entry changed (computed fields are then demanded for every register);
+    # PFR (quick): the register under test plus every register with a computed field, in bit-field form;
     # the big areas (FCB, fuses): only the register under test - everything else stays at its reset value either way
     settings = dict(base[area.settings_key]) if full else {}
+    if pfr and quick:
+        model: AR.AreaModel = st["mdl"]["model"]
+        for r, _f in AR.inverse_rules(model.regs):
+            if r.name in base[area.settings_key]:
+                settings[r.name] = base[area.settings_key][r.name]
     if t["form"] in ("reg", "group"):
         settings[regname] = t["value"]
     else:
@@ -1060,20 +1106,27 @@ def dep_case(case: dict) -> dict:
     if case.get("slice"):
         k, n = case["slice"]
         ts = ts[(len(ts) * k) // n:(len(ts) * (k + 1)) // n]
+    tv0 = st["cfg"][area.settings_key].get(regname)
     for t in ts:
+        if t["form"] == "field" and isinstance(tv0, dict) and not t.get("omit") and t["field"] in tv0:
+            b0 = tv0[t["field"]]
+            same = (b0 == t["value"]) if isinstance(t["value"], str) else (_as_int(b0) == t["value"])
+            if same:
+                o.c("values_equal_to_template_skipped")  # that is the base configuration again
+                continue
         what = f"{regname}" + (f".{t['field']}" if "field" in t else "") + f"={t['value']}" + (f",{t['field2']}={t['value2']}" if t["form"] == "pair" else "") + (f" (without {t['omit']})" if t.get("omit") else "")
         form = t["form"] + (":enum" if t.get("enum") else "") + (":computed-given" if t.get("explicit_computed") else "") + (":calculated-omitted" if t.get("omit") else "")
         rt_disc = f":{form}"
         if dup_names:
             rt_disc = ":duplicate-enum-name" + spec_tag(st["facts"])  # get_config() writes a name that load() resolves to another value
-        cfg = make_cfg(st, regname, t)
+        cfg = make_cfg(st, regname, t, quick=not rt_all)
         settings = cfg[area.settings_key]
         o.c("evaluations_dep")
         o.c(f"dep:{kind}")
         fkey = t.get("field", "") + "|" + t["form"]
         try:
-            if kind == "fuses" and not rt_all and fkey in loaded_real:
-                obj = fuses_fast_load(cfg)
+            if kind == "fuses" and not rt_all:
+                obj = fuses_fast_load(cfg)  # quick: Fuses.load_from_config itself runs at base for every instance
             else:
                 obj = area.load(inst, copy.deepcopy(cfg) if kind == "xmcd" else cfg)
                 loaded_real.add(fkey)
@@ -1135,10 +1188,11 @@ def dep_case(case: dict) -> dict:
         # ---- round trips --------------------------------------------------------------------------------------------
         fkey = t.get("field", "") + "|" + t["form"]
         n = per_field_rt.get(fkey, 0)
-        rt_per_field = 1 if kind in ("fuses", "xmcd") else 2  # quick: these two re-validate the whole area per load
-        if rt_all or n < rt_per_field or t["form"] in ("pair", "group") or t.get("omit") or t.get("explicit_computed"):
-            if not rt_all and t["raw"] in (0,) and t["form"] == "field" and not t.get("explicit_computed"):
-                continue  # quick: the round trips take the first two non-zero values of every field
+        # quick: the two round trips run for the first non-zero value of every bit-field and for the whole-register values
+        # 0 and max; pairs, groups, computed-field cases always
+        if rt_all or t["form"] in ("pair", "group") or t.get("omit") or t.get("explicit_computed") or \
+                (t["form"] == "field" and n < 1 and t["raw"] != 0) or \
+                (t["form"] == "reg" and (t["raw"] == 0 or n < 2 and t["raw"] not in (0, 1))):
             per_field_rt[fkey] = n + 1
             o.c("roundtrips_dep")
             round_trips(st, o, obj, img, "dep", rt_disc, fast=True, what=what, only_reg=None if rt_all else regname)
@@ -1147,7 +1201,8 @@ def dep_case(case: dict) -> dict:
 
 def fuses_fast_load(cfg: dict):
     """Fuses.load_from_config minus the two schema validations of the whole fuse map (25 ms each): what load_config
-    does after check_config.  Quick tier only, and only after the same field went through the real entry point."""
+    does after check_config.  Quick tier only (the real entry point runs at base for every instance and, in the thorough
+    tier, for every value)."""
     from spsdk.fuses.fuses import Fuses
 
     f = Fuses(cfg["family"], cfg.get("revision", "latest"))
@@ -1310,6 +1365,8 @@ def cli_case(case: dict) -> dict:
                 o.v("cli", f"{tool}:{kind}:binary-differs-from-api", f"{iid}: CLI export differs from the API export of the same template: " + _diff(st, img, got))
         if kind.startswith("pfr.") and st and st.get("ok"):
             cli_pfr_options(st, o, s, d)
+        if kind in ("fcb", "xmcd") and st and st.get("ok"):
+            round_trips(st, o, st["obj"], st["img"], "class", ":rendered", fast=False, what="base (create_config text)")
         if not s["parse"]:
             return o.result()
         rc, outp, exc = A.cli_run(tool, s["parse"])
@@ -1400,7 +1457,12 @@ def run(ctx: core.Ctx) -> None:
             if len(lst) < 400:
                 lst.append(tag)
 
+    margin = 30 if ctx.tier == "quick" else 90  # results arrive in task order: leave room for the task in flight
+    base_done = 0
     for case, res in ctx.pool_map(run_case, base_cases, timeout=120, chunksize=4, check_det=3):
+        if ctx.time_left() < margin:
+            break
+        base_done += 1
         if not ctx.absorb(case, res):
             continue
         note(case, res)
@@ -1414,6 +1476,11 @@ def run(ctx: core.Ctx) -> None:
             pk["classes"].add(ck)
         if len(ctx.samples) < 3:
             ctx.sample({"base": A.inst_id(case), "class": ck})
+    if base_done < len(base_cases):
+        ctx.exhaustive = False
+        ctx.cov["bound_completed"] = f"k=0 INCOMPLETE: {base_done} of {len(base_cases)} instances (time budget)"
+        ctx.cov["instances_base"] = base_done
+        return
     ctx.cov["instances_base"] = len(base_cases)
     ctx.cov["wall_base_s"] = round(core.time.time() - ctx.t0, 1)
     ctx.cov["classes"] = {k: len(v["classes"]) for k, v in per_kind.items()}
@@ -1451,13 +1518,15 @@ def run(ctx: core.Ctx) -> None:
                     by_struct.setdefault(eh.split("/")[1], []).append(reg)
                 if thorough and fb:
                     keep = {r for lst in by_struct.values() for r in lst[:4] + lst[4::16] + lst[-2:]}
-                else:
+                elif thorough:
                     keep = {r for lst in by_struct.values() for r in lst[:2] + lst[-1:]}
+                else:
+                    keep = {r for lst in by_struct.values() for r in lst[:1] + lst[-1:]}
                 if xm and rep["sub"][1] == "full" and not thorough:
-                    # quick: a "full" block costs > 1 s per evaluation and is a plain register array: the header (unless an
-                    # earlier class explored it), the first and the last register of the block
-                    names = [r for r, _ in regs]
-                    keep = {n for n in names if n == "header"} | set(names[1:2]) | set(names[-1:])
+                    # quick: a "full" block costs > 1 s per evaluation and is a plain register array (the code that is
+                    # particular to XMCD sits in the header and in configOption0/1 of the simplified blocks): only the header,
+                    # unless an earlier class explored it; thorough explores the block
+                    keep = {n for n, _ in regs if n == "header"}
                 skipped_struct += len(regs) - len(keep)
                 regs = [(r, e) for r, e in regs if r in keep]
             for reg, eh in regs:
@@ -1481,7 +1550,7 @@ def run(ctx: core.Ctx) -> None:
     if len(allcases) != len(cli_cases) + len(dep_cases):
         ctx.exhaustive = False
     # one pool task = the cases of one instance, cut into pieces of roughly equal cost
-    per_task = {"fcb": 5, "xmcd": 3, "fuses": 10, "pfr.cmpa": 12, "pfr.cfpa": 12}
+    per_task = {"fcb": 4, "xmcd": 1, "fuses": 8, "pfr.cmpa": 10, "pfr.cfpa": 10}
     tasks: list[dict] = []
     cur: list[dict] = []
     for c in allcases:
@@ -1493,7 +1562,7 @@ def run(ctx: core.Ctx) -> None:
     if cur:
         tasks.append({"t": "multi", "cases": cur})
     for task, mres in ctx.pool_map(run_case, tasks, timeout=600, chunksize=1, check_det=2):
-        if ctx.time_left() < 15:
+        if ctx.time_left() < margin:
             cut = True
             break
         if isinstance(mres, dict) and "multi" in mres:
@@ -1520,7 +1589,7 @@ def run(ctx: core.Ctx) -> None:
         ctx.cov["bound_completed"] = f"k=0 complete ({len(base_cases)} instances); k=1: {done} of {len(allcases)} register cases"
     else:
         ctx.cov["bound_completed"] = ("k=0: all instances; k=1: every register x bit-field x value on one representative per class"
-                                      + ("; k=2: neighbouring bit-field pairs" if thorough else " (register entries deduplicated across classes; round trips on two non-zero values per field)"))
+                                      + ("; k=2: neighbouring bit-field pairs" if thorough else " (thinned: first+last register per structure, entries deduplicated across classes, values {0,1,max,0x55..}, <=4 enum names, round trips on one value per field)"))
     cpu: dict[str, list] = {}
     try:
         for fn in os.listdir(ctx.workdir):
@@ -1538,6 +1607,7 @@ def run(ctx: core.Ctx) -> None:
     ctx.cov["findings_where"] = {k: {"count": len(v), "first": v[:25]} for k, v in sorted(where.items())}
     ctx.cov["per_kind"] = {k: {"instances": v["instances"], "classes": len(v["classes"]), "departures": v["departures"],
                                "rejected": v["rejected"]} for k, v in per_kind.items()}
+    ctx.cov["rejected"] = ctx.counters.get("rejected", 0)
     ctx.cov["evaluations"] = ctx.counters.get("base_instances", 0) + ctx.counters.get("evaluations_dep", 0) + ctx.counters.get("cli_invocations", 0)
     ctx.rule = ("k=0: every (area, family, revision, sub-feature) of the database: template -> YAML (ruamel + PyYAML) -> schema -> load -> "
                 "export -> size / reset image / markers -> parse -> export, get_config -> load -> export, PFR seal and ROTKH from 3-4 key sets; "
@@ -1547,14 +1617,19 @@ def run(ctx: core.Ctx) -> None:
                 "distinct = class keys + distinct exported binaries")
     ctx.assumptions += [
         "two instances with the same class key (area kind, every database value read, SHA-1 of every file read) differ only in the family string",
-        "quick tier: of the registers of one file with the same structure (only name and offset differ) the first two and the last are explored; "
+        "quick tier: of the registers of one file with the same structure (only name and offset differ) the first and the last are explored; "
         "a register whose complete description entry equals one already explored in another class is not explored again; "
-        "the two round trips run for the first two non-zero values of every field (one for fuses / XMCD); thorough lifts all three "
+        "values {0, 1, max, 0x55..} (+ the seeded whole-register value), of more than four enum names the first two and the last two "
+        "(fuses and XMCD bit-fields: {1, max}, first and last enum name); "
+        "the two round trips run for the first non-zero value of every bit-field and for the whole-register values 0 and max; "
+        "thorough lifts all of these: full alphabet {0,1,max,max-1,0x55..,0xAA..}, every enum name, every register, all round trips "
         "(except: XMCD first two + last per structure, FCB first four + every 16th + last two per structure)",
         "fastjsonschema.compile is memoised per worker on the JSON text of the schema (third-party, pure); every distinct schema is compiled for real",
         "FCB / fuses departures load a configuration holding only the register under test (all others stay at reset, as in the template); "
-        "quick tier: after a fuse field went through Fuses.load_from_config once, its further values skip the two whole-map schema validations",
-        "whole-register values stay inside the bits that the description file declares (named fields or gaps): other bits cannot be written in bit-field form",
+        "quick tier: fuse departures skip the two whole-map schema validations of Fuses.load_from_config (which runs at base for every instance, and for every value in the thorough tier); "
+        "XMCD 'full' blocks: header only in the quick tier",
+        "whole-register values stay inside the bits that the description file declares (named fields or gaps) and outside bit-fields that share "
+        "their name with another field of the same register: other bits cannot be written in the bit-field form get_config() produces",
         "an enum name that the description file gives to several values is not used as an input (ambiguous); the numeric values are",
         "alternative-width register groups (PFR ROTKH): for whole-group values only the bytes outside the group are modelled (C11 known findings); "
         "the hash placement is checked through export(keys=/rotkh=) and the pfr CLI",
